@@ -99,3 +99,38 @@ Definition is_string_key (kn : node) : bool := String.eqb (n_typn kn) "string".
 (* c.isBuiltin *)
 Definition is_builtin (tn : string) : bool :=
   match skind_of_name tn with Some _ => true | None => String.eqb tn "[]byte" end.
+
+(* ---------- how a value reaches a method: the argument forms of the generated headers ---------- *)
+(* how the argument reaches the method (Api forms) *)
+Inductive arg :=
+| AVal (v : val)            (* T *)
+| APtr (o : option val)     (* *T, possibly a typed nil *)
+| APtrPtr (o : option (option val))   (* **T: None = nil **T; Some None = pointer to a nil *T *)
+| ANil                      (* untyped nil interface *)
+| AForeign.                 (* a value of an unrelated type *)
+
+(* x after the type switch of the header: None = the header returned by itself *)
+Definition header_x (a : arg) : option cur + pkind :=
+  match a with
+  | AVal v => inl (Some (CVal v))
+  | APtr (Some v) => inl (Some (CVal v))
+  | APtr None => inl (Some CNil)
+  | APtrPtr (Some (Some v)) => inl (Some (CVal v))
+  | APtrPtr (Some None) => inl (Some CNil)
+  | APtrPtr None => inr PNilDeref                (* x = *p with p nil *)
+  | ANil | AForeign => inl None
+  end.
+
+
+(* the argument forms a value v can be passed in, with the names the harness uses *)
+Definition arg_of_form (form : string) (v : val) : arg :=
+  if String.eqb form "v" then AVal v
+  else if String.eqb form "p" then APtr (Some v)
+  else if String.eqb form "pp" then APtrPtr (Some (Some v))
+  else if String.eqb form "np" then APtr None
+  else if String.eqb form "npp" then APtrPtr (Some None)
+  else if String.eqb form "nilpp" then APtrPtr None
+  else if String.eqb form "nil" then ANil
+  else AForeign.
+Definition value_forms : list string := ["v"; "p"; "pp"].
+Definition hostile_forms : list string := ["np"; "npp"; "nilpp"; "nil"; "foreign"].
